@@ -576,12 +576,21 @@ func (s *vfSim) reader(h *vfStreamH) {
 			<-ch
 		}
 		poll := time.Duration(s.sc.PollMs[h.side]) * time.Millisecond
-		if poll > 0 && nPolls > 150 && poll < 2*time.Second {
-			poll = 2 * time.Second // keep long idle phases cheap
+		slow := false
+		if poll > 0 && nPolls > 150 && poll < time.Second {
+			poll, slow = time.Second, true // keep long idle phases cheap
 		}
 		if poll > 0 {
 			nPolls++
 			_ = h.s.SetReadDeadline(time.Now().Add(poll))
+			if nPolls%2 == 0 && !slow {
+				// every other round the reader is busy elsewhere for a while after arming the
+				// deadline: the deadline may expire (or the association go down) with no Read in progress
+				time.Sleep(poll * 3 / 4)
+				if nPolls%4 == 0 {
+					time.Sleep(poll / 2)
+				}
+			}
 		}
 		n, ppi, err := h.s.ReadSCTP(buf)
 		if poll > 0 && errors.Is(err, ErrReadDeadlineExceeded) {
@@ -1043,12 +1052,17 @@ func vfCheckExact(k vfStreamKey, ws []*vfWriteRec, rs []vfReadRec) string {
 // vfCheckDelivery: the oracle for a reliable stream of a transfer scenario: exact order for
 // ordered streams, exactly-once (multiset equality) for streams the scenario made unordered.
 func vfCheckDelivery(sc *vfE1, k vfStreamKey, ws []*vfWriteRec, rs []vfReadRec) string {
-	unord := false
+	unord, pr := false, false
 	for i := range sc.Acts {
 		a := &sc.Acts[i]
-		if a.Kind == "setrel" && a.Side == k.Side && uint16(a.SID) == k.SID && a.Unord && a.RelT == 0 {
-			unord = true
+		if a.Kind == "setrel" && a.Side == k.Side && uint16(a.SID) == k.SID {
+			unord, pr = a.Unord, a.RelT != 0
 		}
+	}
+	if pr {
+		// partially reliable: what is delivered is intact, at most once and (if ordered) in order
+		m, _ := vfCheckSubset(k, ws, rs, !unord)
+		return m
 	}
 	if !unord {
 		return vfCheckExact(k, ws, rs)
